@@ -319,3 +319,41 @@ Definition C10_bi_set_get_keyword_stmt : Prop :=
 Definition C10_bi_keyword_over_positional_stmt : Prop :=
   forall b a kw k q, b_names_ok b = true -> In k (map fst (b_items b)) -> b_lk kw k = Some (V q) ->
     let r := b_set_params b a kw in snd r <> None -> kw_get k (b_got (fst r)) = Some q.
+
+(** * Midline: names and order *)
+Definition ml_ei (m : midline) : uni := b_ipsi (ml_ext m).
+Definition ml_ec (m : midline) : uni := b_contra (ml_ext m).
+Definition ml_ni (m : midline) : uni := b_ipsi (ml_noext m).
+Definition ml_nc (m : midline) : uni := b_contra (ml_noext m).
+Definition m_mixing_item (m : midline) : list (path * Qc) :=
+  match ml_mixing m with Some mix => [(["mixing"], mix)] | None => [] end.
+Definition m_midext_item (m : midline) : list (path * Qc) := [(["midext"; "prob"], ml_midext m)].
+(** what get_params reports, per use_mixing and LNL symmetry: ipsilateral tumour spread
+    from ext.ipsi; contralateral tumour spread from noext.contra (and ext.contra without
+    mixing); LNL spread from the ext model; distributions from ext.ipsi; midext_prob last *)
+Definition mid_items (m : midline) : list (path * Qc) :=
+  let ei := ml_ei m in let ec := ml_ec m in let nc := ml_nc m in
+  match ml_mixing m, ml_symL m with
+  | Some _, true => pre ["ipsi"] (u_tumor_items ei) ++ pre ["contra"] (u_tumor_items nc) ++ m_mixing_item m
+                    ++ u_lnl_items ei ++ u_dist_items ei ++ m_midext_item m
+  | Some _, false => pre ["ipsi"] (u_tumor_items ei ++ u_lnl_items ei) ++ pre ["contra"] (u_tumor_items nc ++ u_lnl_items ec)
+                     ++ m_mixing_item m ++ u_dist_items ei ++ m_midext_item m
+  | None, true => pre ["ipsi"] (u_tumor_items ei) ++ pre ["noext"; "contra"] (u_tumor_items nc)
+                  ++ pre ["ext"; "contra"] (u_tumor_items ec) ++ u_lnl_items ei ++ u_dist_items ei ++ m_midext_item m
+  | None, false => pre ["ipsi"] (u_tumor_items ei ++ u_lnl_items ei) ++ pre ["noext"; "contra"] (u_tumor_items nc)
+                   ++ pre ["ext"; "contra"] (u_tumor_items ec) ++ pre ["contra"] (u_lnl_items ec)
+                   ++ u_dist_items ei ++ m_midext_item m
+  end.
+(** names: the three leaves that are read are well-formed and the ext model carries the
+    midline's LNL symmetry flag *)
+Definition mid_names_ok (m : midline) : bool :=
+  u_names_ok (ml_ei m) && u_names_ok (ml_ec m) && u_names_ok (ml_nc m)
+  && same_shape (ml_ei m) (ml_ec m) && same_shape (ml_ei m) (ml_nc m)
+  && Bool.eqb (b_symL (ml_ext m)) (ml_symL m).
+(** for the setters also noext.ipsi (it consumes positional values before noext.contra) *)
+Definition mid_set_ok (m : midline) : bool :=
+  mid_names_ok m && u_names_ok (ml_ni m) && same_shape (ml_ei m) (ml_ni m).
+Definition C10_mid_names_nodup_stmt : Prop :=
+  forall m, mid_names_ok m = true -> m_got m = Some (mid_items m) /\ NoDup (map fst (mid_items m)).
+Definition C10_mid_nested_flattens_to_flat_stmt : Prop :=
+  forall m, mid_names_ok m = true -> option_map flat_items_dict (m_get_params m false) = m_got m.
